@@ -709,6 +709,12 @@ func assertMerge(vm *VM, t Term, merge func([]clause, []clause) []clause, env *E
 		vm.procedures[pi] = p
 	}
 
+	// The stored clause is a copy of its own: what the caller does to its variables later is none of the clause's business.
+	t, err = renamedCopy(t, nil, env)
+	if err != nil {
+		return err
+	}
+
 	added, err := compile(t, env)
 	if err != nil {
 		return err
